@@ -1,12 +1,10 @@
-import sys, time, faulthandler
-sys.path.insert(0,'/verif')
-faulthandler.dump_traceback_later(150, exit=True)
-from pyvc import api, runner
-runner.load_modules()
-c=api.REGISTRY['cirq-core/cirq/sim/classical_simulator.py:ClassicalBasisSimState._act_on_fallback_']
-c.cases=[cs for cs in c.cases if cs.name==sys.argv[1]]
-t=time.time()
-rep=api.verify(c)
-print(rep.status, rep.out_of_reach, rep.error, len(rep.obligations), rep.paths, round(time.time()-t,1))
-for o in rep.obligations:
-    if o.status!='proved': print(o.status,o.name,o.detail[:300])
+import warnings; warnings.simplefilter('ignore')
+import cirq, sympy
+from contracts import C19_circuits as cc
+q,r=cirq.LineQubit.range(2)
+for v in ('2.0','3.0'):
+  for sub in [cirq.X(r), (cirq.H**0.5)(r), (cirq.ISWAP**0.5)(q,r), [cirq.X(r), cirq.Z(q)]]:
+    try:
+        c=cirq.Circuit(cirq.H(q), cirq.measure(q,key='a'), cirq.If('a', sub))
+        print(v, str(sub)[:30], cc.compare_measured(c,[q,r],v))
+    except Exception as e: print(v, 'EXC', repr(e)[:200])
